@@ -7,6 +7,7 @@ import (
 	"go/token"
 	"go/types"
 	"math/big"
+	"sort"
 	"strings"
 )
 
@@ -37,6 +38,7 @@ type Exec struct {
 	rangeKey    map[string]Term
 	final       *State
 	entry0      *State
+	retOrd      map[token.Pos]int
 	autoDec     func(*State) Term
 	inlineDepth int
 	paramVals   []Value
@@ -374,9 +376,18 @@ func (x *Exec) binary(st *State, e *ast.BinaryExpr) Value {
 		for _, t := range tail {
 			st.assume(tImplies(guard, t))
 		}
-		for k, v := range sub.heaps {
-			if old, ok := st.heaps[k]; !ok || old.S != v.S {
-				x.unsup(e.Pos(), "side effect in right operand of %s", e.Op)
+		// heap effects of the right operand (implicit &x.f temporaries, callee
+		// frames) take place only when it is evaluated
+		var ks []string
+		for k := range sub.heaps {
+			ks = append(ks, k)
+		}
+		sort.Strings(ks)
+		for _, k := range ks {
+			v := sub.heaps[k]
+			old := x.vc.heap(st, k, v.Sort)
+			if old.S != v.S {
+				st.heaps[k] = x.vc.name(st, k, tIte(guard, v, old))
 			}
 		}
 		st.alloc = sub.alloc
